@@ -80,39 +80,41 @@ def _loop_iterations(ctx, m, f, lp):
     second result: does a non-empty `responses` stop the loop."""
     stops = False
     if isinstance(lp, ast.While):
+        # the condition is evaluated by the checker's interpreter for an empty and a non-empty `responses` while the counter
+        # runs: any spelling of the test (De Morgan, flipped comparison, renamed counter) gives the same table
+        from ..minieval import Mini, Unsupported
+
         test = lp.test
-        atoms = test.values if isinstance(test, ast.BoolOp) and isinstance(test.op, ast.And) else [test]
-        cnt = None
-        for a in atoms:
-            if isinstance(a, ast.UnaryOp) and isinstance(a.op, ast.Not) and isinstance(a.operand, ast.Name) and a.operand.id == "responses":
-                stops = True
-            elif isinstance(a, ast.Compare) and len(a.ops) == 1 and isinstance(a.left, ast.Name):
-                cnt = a
-        if cnt is None:
-            return None, stops
-        var = cnt.left.id
-        bound = ctx.repo.try_fold(m, cnt.comparators[0])
-        if not isinstance(bound, int):
-            return None, stops
-        # initial value
+        names = {x.id for x in ast.walk(test) if isinstance(x, ast.Name)}
+        incs = [x for x in ast.walk(lp) if isinstance(x, ast.AugAssign) and isinstance(x.target, ast.Name) and x.target.id in names and isinstance(x.op, ast.Add)]
+        top = [s_ for s_ in lp.body if s_ in incs]
+        if len(incs) != 1 or len(top) != 1:
+            return None, False  # no counter, or it is not advanced unconditionally once per iteration
+        var = incs[0].target.id
         init = None
-        for s in f.node.body:
-            if isinstance(s, ast.Assign) and isinstance(s.targets[0], ast.Name) and s.targets[0].id == var:
-                init = ctx.repo.try_fold(m, s.value)
-        incs = [s for s in lp.body if isinstance(s, ast.AugAssign) and isinstance(s.target, ast.Name) and s.target.id == var and isinstance(s.op, ast.Add)]
-        cond_incs = [x for x in ast.walk(lp) if isinstance(x, ast.AugAssign) and isinstance(x.target, ast.Name) and x.target.id == var]
-        if init is None or len(incs) != 1 or len(cond_incs) != 1:
-            return None, stops
+        for s_ in f.node.body:
+            if isinstance(s_, ast.Assign) and isinstance(s_.targets[0], ast.Name) and s_.targets[0].id == var:
+                init = ctx.repo.try_fold(m, s_.value)
         step = ctx.repo.try_fold(m, incs[0].value)
-        if not isinstance(step, int) or step <= 0:
-            return None, stops
-        op = type(cnt.ops[0])
+        if not isinstance(init, int) or not isinstance(step, int) or step <= 0:
+            return None, False
+        resp = next((nm for nm in names if nm != var and nm in ("responses",) ), None) or next((nm for nm in sorted(names) if nm != var and not nm.startswith("_") and ctx.repo.try_fold(m, ast.Name(id=nm, ctx=ast.Load())) is None), None)
+
+        def cond(v, answered):
+            env = {var: v}
+            if resp is not None:
+                env[resp] = ("answer",) if answered else ()
+            try:
+                return bool(Mini(ctx.repo, m, {}).ev(test, env))
+            except Unsupported as ex:
+                raise AnalysisError(f"{m.relpath}: search(): loop condition left the evaluable fragment: {ex}")
+
         n, v = 0, init
+        stops = resp is not None
         while n < 1000:
-            ok = {ast.Lt: v < bound, ast.LtE: v <= bound, ast.NotEq: v != bound}.get(op)
-            if ok is None:
-                return None, stops
-            if not ok:
+            if resp is not None and cond(v, True):
+                stops = False
+            if not cond(v, False):
                 return n, stops
             v += step
             n += 1
@@ -354,7 +356,16 @@ def r5(ctx):
         ok = len(socks) == 1 and len(clients) == 1
         skw = {k.arg: norm_text(k.value) for k in socks[0].keywords} if ok else {}
         ckw = {k.arg: norm_text(k.value) for k in clients[0].keywords} if ok else {}
-        ok = ok and skw.get("host") == "host" and skw.get("port") == "port" and skw.get("registry") == reg and ckw.get("airtouch_id") == "airtouch_id" and ckw.get("serial") == "serial" and ckw.get("name") == "name" and ckw.get("socket") == "socket"
+        # the client gets the socket built here: directly, or through whatever local holds it
+        sock_ok = False
+        if ok:
+            sv = next((k.value for k in clients[0].keywords if k.arg == "socket"), None)
+            if sv is socks[0] or (isinstance(sv, ast.Call) and sv is socks[0]):
+                sock_ok = True
+            elif isinstance(sv, ast.Name):
+                binds = [x for x in ast.walk(cf) if isinstance(x, (ast.Assign, ast.AnnAssign)) and any(isinstance(t, ast.Name) and t.id == sv.id for t in (x.targets if isinstance(x, ast.Assign) else [x.target]))]
+                sock_ok = len(binds) == 1 and binds[0].value is socks[0]
+        ok = ok and skw.get("host") == "host" and skw.get("port") == "port" and skw.get("registry") == reg and ckw.get("airtouch_id") == "airtouch_id" and ckw.get("serial") == "serial" and ckw.get("name") == "name" and sock_ok
         ctx.check(ok, R, f"{fn_name}:wiring", fm, cf, f"socket(host, port, {reg}) and {cls}(airtouch_id, serial, name, socket)", f"{skw} {ckw}")
     sf = fm.get_function("_search")
     loops = [x for x in ast.walk(sf) if isinstance(x, (ast.For, ast.AsyncFor, ast.While))]
